@@ -124,6 +124,13 @@ Definition moved_folder (lay : layout) (a b f : fname) : option fname :=
            end
   end.
 
+(* where a path ends up when the directory of folder a is renamed to b *)
+Definition move_path (lay : layout) (a b : fname) (p : path) : path :=
+  match moved_folder lay a b (folder_of p) with
+  | Some g => with_folder p g
+  | None => p
+  end.
+
 Definition rename_dir (lay : layout) (m : fs) (a b : fname) : fs :=
   map (fun e => match moved_folder lay a b (folder_of (fst e)) with
                 | Some g => (with_folder (fst e) g, snd e)
@@ -219,6 +226,15 @@ Fixpoint apply_ops (lay : layout) (m : fs) (l : list fsop) : fs * bool :=
               | None => (m, false)
               end
   end.
+
+(* the directory rename collides with nothing: no two entries end up under
+   one path (what rename(2) of a directory onto a free name guarantees on a
+   real filesystem; the association list could also hold entries below a
+   directory that does not exist) *)
+Definition rename_clear (lay : layout) (m : fs) (a b : fname) : bool :=
+  forallb (fun e1 => forallb (fun e2 =>
+    implb (path_eqb (move_path lay a b (fst e1)) (move_path lay a b (fst e2)))
+          (path_eqb (fst e1) (fst e2))) m) m.
 
 (* the process is killed after its first k operations *)
 Definition crash (k : nat) (l : list fsop) : list fsop := firstn k l.
